@@ -500,4 +500,47 @@ inline void scheduler_interval_stop(const vf::opts &o, vf::report &R, vf::team &
     }
 }
 
+// ---------------------------------------------------------------------------------------------
+// Pool mode under re-arming: sleepers that are resumed on the pool immediately arm the (then often EMPTY) scheduler again with a very
+// short sleep, from several pool threads at once, hundreds of times. Every newly armed earliest entry must reach the scheduling
+// worker - a schedule() that notifies nobody leaves its sleeper waiting for ever although the scheduler is idle (hang verdict).
+inline cocls::async<void> spr_sleeper(cocls::scheduler &sch, int n, unsigned us, std::atomic<long> &ticks, std::atomic<int> &early) {
+    for (int i = 0; i < n; i++) {
+        auto t0 = std::chrono::system_clock::now();
+        auto d = std::chrono::microseconds(us + (unsigned)(i % 3) * 7);
+        co_await sch.sleep_for(d);
+        if (std::chrono::system_clock::now() < t0 + d) early.fetch_add(1, std::memory_order_relaxed);
+        ticks.fetch_add(1, std::memory_order_relaxed);
+    }
+}
+inline void scheduler_pool_rearm(const vf::opts &o, vf::report &R, uint64_t cases) {
+    vf::rng master(vf::mix(o.seed, 0x512));
+    for (uint64_t cn = 0; cn < cases && R.nviol() < 5; cn++) {
+        vf::rng r(master.next());
+        int nthreads = 2 + (int)r.below(4), nsleepers = 1 + (int)r.below(3), n = 100 + (int)r.below(300);
+        unsigned us = (unsigned)r.below(60);
+        std::string desc = "pool threads=" + std::to_string(nthreads) + " sleepers=" + std::to_string(nsleepers) + " re-arms=" + std::to_string(n) + " sleep=" + std::to_string(us) + "us";
+        vf::set_crash_ctx(R.prop.c_str(), "scheduler_pool_rearm", o.seed, cn, desc.c_str());
+        std::atomic<long> ticks{0}; std::atomic<int> early{0};
+        {
+            cocls::thread_pool pool((unsigned)nthreads);
+            {
+                cocls::scheduler sch(pool);
+                std::vector<std::unique_ptr<cocls::future<void>>> fs;
+                for (int i = 0; i < nsleepers; i++) fs.push_back(std::unique_ptr<cocls::future<void>>(new cocls::future<void>(spr_sleeper(sch, n, us, ticks, early).start())));
+                for (auto &f : fs) f->sync(); // blocks for ever when a sleeper is stranded (watchdog: nobody runs, nothing finishes)
+            }
+        }
+        R.cases++;
+        std::string err;
+        if (ticks.load() != (long)nsleepers * n) err = "sleepers completed " + std::to_string(ticks.load()) + " sleeps, expected " + std::to_string((long)nsleepers * n);
+        else if (early.load()) err = std::to_string(early.load()) + " sleeps completed before their time point";
+        if (!err.empty()) { R.violation("monitor:realtime|scheduler_pool_rearm", err, vf::jobj().kv("case", (unsigned long long)cn).kv("desc", desc).str()); continue; }
+        R.nontrivial_cases++;
+        R.sig(desc);
+        R.cls("sleeps_rearmed_from_pool_threads", (uint64_t)ticks.load());
+        if (R.samples.size() < 2) R.sample(vf::jobj().kv("case", desc).kv("result", "every re-armed sleep completed, none early").str());
+    }
+}
+
 } // namespace scn
